@@ -1,17 +1,16 @@
-mod caps;
-mod cfgs;
-mod crash;
-mod edges;
-mod elem;
-mod exec;
-mod exec_range;
-mod exec_clone;
-mod exec_misc;
-mod exec_handles;
-mod galloc;
-mod mcmodel;
-mod track;
-mod types;
+pub mod caps;
+pub mod crash;
+pub mod edges;
+pub mod elem;
+pub mod exec;
+pub mod exec_range;
+pub mod exec_clone;
+pub mod exec_misc;
+pub mod exec_handles;
+pub mod galloc;
+pub mod mcmodel;
+pub mod track;
+pub mod types;
 
 use std::collections::HashSet;
 use std::sync::{Arc, Mutex};
@@ -31,19 +30,26 @@ fn arg(args: &[String], name: &str) -> Option<String> {
     args.iter().position(|a| a == name).and_then(|i| args.get(i + 1).cloned())
 }
 
+/// One configuration of a shard binary: the runner, whether it belongs to the quick tier, and its group
+/// ("general": the config cover of DESIGN.md 3.3; "grid": the C11 capacity grid; ...).
+pub struct Entry { pub r: Box<dyn Runner>, pub quick: bool, pub group: &'static str }
+
+thread_local! { static ALL: std::cell::RefCell<Option<fn() -> Vec<Entry>>> = const { std::cell::RefCell::new(None) }; }
+
+/// which config groups a property explores
+pub fn groups_for(prop: Prop) -> &'static [&'static str] {
+    match prop {
+        Prop::C11 => &["fixed", "grid"],
+        Prop::C19 => &["noalloc"],
+        Prop::C12 => &["general", "fixed", "align"],
+        Prop::C10 | Prop::C18 | Prop::C17 => &["general"],
+        _ => &["general", "fixed"],
+    }
+}
+
 fn configs_for(prop: Prop, tier: Tier) -> Vec<Arc<dyn Runner>> {
-    let all: Vec<Arc<dyn Runner>> = cfgs::all().into_iter().map(Arc::from).collect();
-    let quick_set: &[&str] = &[
-        "W8D/Heap/Cloneable", "B1D/Heap/Cloneable", "T3D/Heap/Cloneable", "A32D/Heap/Cloneable", "L160D/Track/Cloneable", "ZD/Heap/Cloneable",
-        "W8/Track/Cloneable", "X24D/Track/Cloneable", "W8D/Stack<32>/Cloneable", "B1D/StackN<3,3>/Cloneable", "W8D/TrackFixed<4>/Cloneable", "W8D/Heap/None",
-        "A64D/Heap/Cloneable", "D12D/Track/Cloneable",
-    ];
-    all.into_iter().filter(|r| {
-        let n = r.name();
-        let in_tier = tier == Tier::Thorough || quick_set.contains(&n.as_str());
-        let _ = prop;
-        in_tier
-    }).collect()
+    let f = ALL.with(|a| a.borrow().expect("main_with not called"));
+    f().into_iter().filter(|e| (tier == Tier::Thorough || e.quick) && groups_for(prop).contains(&e.group)).map(|e| Arc::from(e.r)).collect()
 }
 
 fn load_known(path: Option<String>) -> HashSet<String> {
@@ -117,7 +123,8 @@ fn quiet_panics() {
     }));
 }
 
-fn main() {
+pub fn main_with(all: fn() -> Vec<Entry>) {
+    ALL.with(|a| *a.borrow_mut() = Some(all));
     let args: Vec<String> = std::env::args().collect();
     let cmd = args.get(1).map(|s| s.as_str()).unwrap_or("");
     let prop = arg(&args, "--prop").and_then(|p| Prop::parse(&p));
